@@ -38,4 +38,4 @@ Definition run (c : case) : list N :=
   [ corr_of (compile FUEL Expanded (c_prog c)) (c_exp c);
     corr_of (compile FUEL Compressed (c_prog c)) (c_comp c);
     b2n (clause_expanded c); b2n (clause_compressed c); b2n (clause_silent c);
-    b2n (known_ns_block (c_prog c)); b2n (known_reorder (c_prog c)) ].
+    b2n (known_reorder (c_prog c)) ].
